@@ -21,6 +21,7 @@ PROBLEMS = collections.OrderedDict(
         ("logistic-xy", ("xy", "logistic", [8.0, 0.7, 4.2], [("add", "y-abs", "e0"), ("add", "x-abs-s", "e1")])),
         ("idx3-cov", ("indexed", "idx3", None, [("add", "y-cov", "e0")])),
         ("quad-con", ("xy", "quadoff", None, [("add", "y-abs-rho", "e0"), ("con", "simple")])),
+        ("peak-fix13", ("xy", "peak", [3.3, 4.3, 1.3, 1.0], [("add", "y-abs", "e0"), ("fix", "mu", 4.32), ("fix", "c", 1.0)])),
     ]
 )
 
@@ -54,6 +55,7 @@ UNC_CONFIGS = collections.OrderedDict(
         ("relm", ["y-abs", "y-rel-model"]),
         ("xy-relm", ["y-abs", "x-abs-s", "y-rel-model"]),
         ("cov", ["y-cov", "y-abs-rho"]),
+        ("x-model", ["y-abs", "x-abs-model"]),
     ]
 )
 
